@@ -390,7 +390,7 @@ class WireEngine(BaseEngine):
     def gen(self, prop, seed, idx, tier):
         rng = rng_for(prop, seed, idx, 'plan')
         if prop == 'C06':
-            return self._gen_c06(rng)
+            return self._gen_c06(rng, idx)
         wire, cfg, fired = gen_world(rng)
         if prop == 'C05' and idx % 10 == 9:
             # mode B (threads): the ParserQueue anchor, executed by the ports_conc machinery
@@ -410,11 +410,12 @@ class WireEngine(BaseEngine):
             return plan
         if idx % 1500 == 11:
             # bulk: thousands of short messages in one stream (queue and buffer limits)
-            n = rng.randint(4200, 9000)
+            n = rng.randint(4200, 9000) if rng.random() < 0.85 else rng.randint(66000, 70000)
             alpha = (0xF8, 0xFA, 0xFE, 0xF6, 0xF8, 0xF8)
             wire = []
+            p_single = 0.8 if n < 60000 else 0.999
             while len(wire) < n:
-                if rng.random() < 0.8:
+                if rng.random() < p_single:
                     wire.append(pick(rng, alpha))
                 else:
                     wire.extend(mido.Message(**model.gen_msg(rng, model.CHANNEL_TYPES)).bytes())
@@ -482,7 +483,16 @@ class WireEngine(BaseEngine):
             p, _, _ = gen_world(rng, max_len=24, force_faults=True)
         return cls, list(p)[:24]
 
-    def _gen_c06(self, rng):
+    def _gen_c06(self, rng, idx=0):
+        if idx % 10000 == 13:
+            # a very long concatenation of encoded messages still parses back to the same list
+            if rng.random() < 0.5:
+                m, rep = {'type': pick(rng, ('clock', 'tune_request', 'start'))}, rng.randint(65600, 70000)
+            else:
+                m, rep = {'type': 'sysex', 'data': [i % 128 for i in range(rng.randint(900, 1100))]}, rng.randint(70, 90)
+            return {'prop': 'C06', 'prefix_class': 'empty', 'prefix': [], 'msgs': [m], 'rt': [], 'chunks_p': [],
+                    'chunks_full': [] if rng.random() < 0.5 else [997] * 200,
+                    'how': pick(rng, ('list', 'bytes', 'parse_all')), 'mutate': False, 'bg': [], 'repeat': rep}
         cls, prefix = self._gen_prefix(rng)
         r = rng.random()
         if r < 0.35:
@@ -824,6 +834,9 @@ class WireEngine(BaseEngine):
         prefix = plan['prefix']
         how = plan['how']
         msgs = [mido.Message(**d) for d in plan['msgs']]
+        if plan.get('repeat'):
+            msgs = msgs * plan['repeat']
+            stats['fault:bulk_stream'] += 1
         by_msg = collections.defaultdict(list)
         for i, pos, b in plan['rt']:
             if i < len(msgs) and msgs[i].type == 'sysex' and b in model.RT_DEFINED:
@@ -858,7 +871,7 @@ class WireEngine(BaseEngine):
             background(k, stream, stats)
         a_objs = self._parse_chunked('prefix', prefix, plan['chunks_p'], how if how != 'parse_all' else 'list')
         a = [snap(m) for m in a_objs]
-        log.ev('prefix', plan['prefix_class'], len(prefix), [repr(x) for x in a])
+        log.ev('prefix', plan['prefix_class'], len(prefix), [repr(x) for x in a[:50]])
         if plan.get('mutate'):
             for m in a_objs:
                 mutate_received(m)
@@ -866,9 +879,12 @@ class WireEngine(BaseEngine):
         for k in plan.get('bg', [])[2:]:
             background(k, stream, stats)
         b = [snap(m) for m in self._parse_chunked('full', stream, plan['chunks_full'], how)]
-        log.ev('full', len(stream), [repr(x) for x in b])
+        log.ev('full', len(stream), len(b), [repr(x) for x in b[:50]])
         stats['steps'] += 2
         expected = a + expected_tail
+        if b != expected and plan.get('repeat'):
+            raise Violation('resync:long-concat', f'{plan["repeat"]} encoded {plan["msgs"][0]["type"]} messages in one '
+                                                  f'stream parsed back to {len(b)} messages')
         if b != expected:
             kinds = 'rt-in-sysex' if by_msg else ('clean-concat' if not prefix else 'prefix')
             raise Violation(f'resync:{kinds}',
@@ -904,6 +920,10 @@ class WireEngine(BaseEngine):
                 yield from shrink_list_at(plan, ('wire',))
             return
         if prop == 'C06':
+            if plan.get('repeat'):
+                if plan['repeat'] > 2:
+                    yield replace_at(plan, ('repeat',), plan['repeat'] - 1000 if plan['repeat'] > 3000 else plan['repeat'] // 2)
+                return
             yield from shrink_list_at(plan, ('msgs',), min_len=1)   # rt indices are re-validated at run time
             yield from shrink_list_at(plan, ('rt',))
             yield from shrink_list_at(plan, ('prefix',))
